@@ -400,6 +400,8 @@ def run_property(pid, seed, tier):
                 out.count('op_raised')
                 out.corr_failures.append(dict(note='implementation raised during a legal operation', config=cfg.describe(),
                                               schedule=sched, error=ev['raised']))
+        for an in cb.anomalies[:2]:
+            out.corr_failures.append(dict(note=an, config=cfg.describe(), schedule=sched))
         out.count('pt' if cfg.pt else 'mh')
         out.count('levels_%d' % cfg.ntemps)
         out.count('si_%d' % cfg.si)
